@@ -817,7 +817,7 @@ func generate(thorough bool) []scenario {
 			}
 			d0 := dims{"eq", "asc", 0, "mixed", 0}
 			evsOf := func(rk string) []evSpec { d := d0; d.rank = rk; return oneDID(0, 0, sh, d) }
-			restart := thorough || n == 3 || shapeName(sh) == "[0][0][0]"
+			restart := n == 3 || shapeName(sh) == "[0][0][0]"
 			if !thorough && n == 4 && len(tiedEvents(evsOf("asc"))) == 2 {
 				// quick tier, 4 events of which 2 are tied: the full product in one tie-break direction, {UTC, monotonic} in the other
 				tieBlock(fmt.Sprintf("T%d%s/mixed", n, shapeName(sh)), evsOf, reps, true, []string{"asc"}, restart)
